@@ -142,6 +142,7 @@ def build_item(found, crate):
     m.probe = found.get("probe")
     m.ast = it
     m.entry_points = found["entry_points"]
+    m.entry_points_via_cfg = any(mac[0] == "entry_points" and mac[2] for a, mac in found["macros"])
     for a, mac in found["macros"]:
         if mac[0] == "entry_points" and mac[1]:
             m.ep_args_s = A.tt_flat(mac[1])
